@@ -142,6 +142,9 @@ void UncompressedFile::write(const char * s, std::streamsize n) {
                 logContainer->filePosition =
                     m_data.back()->uncompressedFileSize +
                     m_data.back()->filePosition;
+            } else {
+                /* all earlier containers have been dropped: continue at the put position, not at 0 */
+                logContainer->filePosition = m_tellp;
             }
             m_data.push_back(logContainer);
         }
